@@ -505,6 +505,13 @@ func main() {
 			qs[i] = genQuery(qr, d)
 		}
 		cells, groups := planCells(c.Rand(uint64(300+di)), nq, perServer, groupsPerServer)
+		// every 6th query is a tie probe, run with inner chunk sizes 1, 2 and 1024
+		for i := 0; i < nq; i += 6 {
+			qs[i] = genTieProbe(qr, d, i/6)
+			for ci := range cells[i] {
+				cells[i][ci].Inner = probeInner[ci%len(probeInner)]
+			}
+		}
 		slot := <-sem
 		wg.Add(1)
 		go func(d *dataset, slot int) {
